@@ -53,3 +53,142 @@ def raster_scene(sid, rng, kind):
 def raster_scenes(n, rng, start_id=8500000):
     kinds = ["few", "split", "every-line", "few"]
     return [raster_scene(start_id + i, rng, kinds[i % len(kinds)]) for i in range(n)]
+
+
+# --------------------------------------------------------------------------------------------------------------
+# Whole-machine raster programs: a guest with an HBlank (STAT mode 0) handler that rewrites scroll / palette /
+# window registers from tables indexed by LY, and a VBlank handler that moves an object and rewrites a tile-map
+# entry; run on the real Core.  The frame the PPU presents is compared by TLC with the composition of the state
+# reconstructed from the recorded bus writes (machine_timeline below).
+
+PPU_REG = {0xFF40: "lcdc", 0xFF42: "scy", 0xFF43: "scx", 0xFF47: "bgp", 0xFF48: "obp0", 0xFF49: "obp1", 0xFF4A: "wy", 0xFF4B: "wx"}
+
+
+def raster_machine_program(sid, rng, variant):
+    from gbprog import Asm, scenario, cpu
+    base = gbprog.scene(sid, rng, rng.choice(["random", "window", "priority", "scroll", "tall"]))
+    lcdc = base["lcdc"] | 0x81
+    tabs = rng.sample([0x43, 0x42, 0x47, 0x4B, 0x48, 0x49], rng.randint(1, 3))        # registers driven per line
+    chunks = []
+    # tables at 0x3000 + 0x100 * k, indexed by LY
+    for k, reg in enumerate(tabs):
+        if reg == 0x43:   t = [(int(20 * __import__("math").sin(y / 9.0)) + rng.randrange(2)) & 0xFF for y in range(256)]
+        elif reg == 0x4B: t = [rng.choice([7, 87, 100, 166, 7 + (y % 80)]) for y in range(256)]
+        else:             t = [rng.randrange(256) if y % rng.choice([1, 4, 16]) == 0 else 0 for y in range(256)]
+        if reg != 0x43 and reg != 0x4B:
+            for y in range(1, 256):
+                if t[y] == 0: t[y] = t[y - 1]
+        chunks.append((0x3000 + 0x100 * k, t))
+    # STAT handler at 0x48: one block, all writes land in the HBlank that raised the request
+    h = Asm(0x48)
+    h.emit(0xC3); h.word(0x0200)                       # JP 0x0200 (the vector area is small)
+    hb = Asm(0x0200)
+    hb.emit(0xF5, 0xE5)                                # PUSH AF ; PUSH HL
+    hb.emit(0xF0, 0x44, 0x6F)                          # LDH A,(LY) ; LD L,A
+    for k, reg in enumerate(tabs):
+        hb.emit(0x26, 0x30 + k, 0x7E, 0xE0, reg)       # LD H,tab ; LD A,(HL) ; LDH (reg),A
+    hb.emit(0xE1, 0xF1, 0xD9)                          # POP HL ; POP AF ; RETI
+    # VBlank handler at 0x40: move object 0, rewrite one map entry, count frames in B
+    v = Asm(0x40)
+    v.emit(0xC3); v.word(0x0280)
+    vb = Asm(0x0280)
+    vb.emit(0xF5, 0xE5, 0x04)                          # PUSH AF ; PUSH HL ; INC B
+    vb.emit(0x21, 0x00, 0xFE, 0x34, 0x23, 0x34, 0x34)  # LD HL,0xFE00 ; INC (HL) ; INC HL ; INC (HL) ; INC (HL)
+    vb.emit(0x21); vb.word(0x9800 + rng.randrange(0x400)); vb.emit(0x78, 0x77)   # LD HL,map ; LD A,B ; LD (HL),A
+    vb.emit(0xE1, 0xF1, 0xD9)
+    a = Asm(0x150)
+    a.emit(0x31, 0xF0, 0xDF)                           # LD SP,0xDFF0
+    a.emit(0x3E, 0x08, 0xE0, 0x41)                     # STAT: mode-0 source
+    a.emit(0x3E, 0x03, 0xE0, 0xFF)                     # IE = VBlank | STAT
+    a.emit(0xAF, 0xE0, 0x0F)                           # IF = 0
+    a.emit(0xFB)                                       # EI
+    a.label("L")
+    if variant == "halt":
+        a.emit(0x76)
+    else:
+        a.emit(0x0C)                                   # INC C
+    a.jr(0x18, "L")
+    chunks += [(0x100, [0x00, 0xC3, 0x50, 0x01]), (h.org, h.resolve()), (hb.org, hb.resolve()), (v.org, v.resolve()), (vb.org, vb.resolve()),
+               (a.org, a.resolve())]
+    iw = [(0xFF40, lcdc), (0xFF42, base["scy"]), (0xFF43, base["scx"]), (0xFF47, base["bgp"]), (0xFF48, base["obp0"]), (0xFF49, base["obp1"]),
+          (0xFF4A, base["wy"]), (0xFF4B, base["wx"])]
+    frames = 2
+    steps = int(frames * 17556 / (1 if variant == "halt" else 4) * 1.15) + 400
+    sc = scenario(sid, chunks, cpu(pc=0x100, sp=0xFFFE), steps, mode="block", init_writes=iw, cart=(0, 0, 2), romfill=0x00)
+    sc["vram"], sc["oam"] = base["vram"], base["oam"]
+    sc["dump_frames"] = True
+    sc["variant"] = variant
+    return sc
+
+
+def raster_machine_programs(n, rng, start_id=8700000):
+    return [raster_machine_program(start_id + i, rng, "halt" if i % 4 == 3 else "busy") for i in range(n)]
+
+
+def machine_timeline(sc, lines):
+    """From a recorded run (parsed trace records of one scenario) reconstruct, for every frame the PPU presented, the
+    state at the start of line 0 and the patches (register / VRAM / OAM writes made during blanking) in force from each
+    line on.  A write is seen by the video hardware at the LCD position the machine had BEFORE the step that made it
+    (devices catch up after the CPU's block).  Returns a list of Val_PpuRaster records; raises ValueError when a write
+    landed outside blanking (line-granular semantics do not apply)."""
+    regs = {v: 0 for v in PPU_REG.values()}
+    vram, oam = list(sc["vram"]), list(sc["oam"])
+    q = 144 * 456
+    out = []
+    # state of the frame being drawn
+    cur = None            # {"base": regs at line 0, "vram", "oam", "patches": {line: {...}}}
+    pend_line0 = {"regs": None, "vram": [], "oam": []}       # writes made during VBlank: effective from line 0 of the next frame
+
+    def snapshot():
+        return dict(regs)
+
+    def effective_line(qpos):
+        ly, x = qpos // 456, qpos % 456
+        if ly >= 144: return 0, True
+        if x >= 268: return (ly + 1, False) if ly + 1 <= 143 else (0, True)
+        return None, False
+
+    def note_write(addr, val, qpos):
+        nonlocal cur
+        isreg = addr in PPU_REG
+        isv = 0x8000 <= addr < 0xA000
+        iso = 0xFE00 <= addr < 0xFEA0
+        if not (isreg or isv or iso): return
+        line, nextframe = effective_line(qpos)
+        if line is None:
+            raise ValueError("write to %#06x at LCD position line %d x %d (not blanking)" % (addr, qpos // 456, qpos % 456))
+        if isreg: regs[PPU_REG[addr]] = val
+        if isv: vram[addr - 0x8000] = val
+        if iso: oam[addr - 0xFE00] = val
+        if nextframe or cur is None:
+            return          # the next frame starts from the then-current regs / vram / oam
+        p = cur["patches"].setdefault(line, {"vram": [], "oam": []})
+        if isv: p["vram"].append([addr - 0x8000, val])
+        if iso: p["oam"].append([addr - 0xFE00, val])
+        p["regs"] = snapshot()
+
+    for r in lines:
+        ev = r.get("ev")
+        if ev == "bw":
+            note_write(r["a"], r["v"], q)
+            q = r["o"]["q"]
+        elif ev == "step":
+            for a, v in r["wr"]:
+                note_write(a, v, q)
+            q0, q = q, r["o"]["q"]
+            # did this step's catch-up start a new frame (wrap from line 153 to line 0)?
+            if q < q0:
+                cur = {"base": snapshot(), "vram": list(vram), "oam": list(oam), "patches": {}}
+        elif ev == "framebuf":
+            if cur is not None:
+                patches = []
+                last = cur["base"]
+                for line in sorted(cur["patches"]):
+                    p = cur["patches"][line]
+                    rr = p.get("regs", last)
+                    last = rr
+                    patches.append(dict(rr, line=line, vram=p["vram"], oam=p["oam"]))
+                rec = dict(cur["base"], id=sc["id"], kind="machine-" + sc.get("variant", ""), vram=cur["vram"], oam=cur["oam"], patches=patches, frame=r["fb"])
+                out.append(rec)
+            cur = None
+    return out
